@@ -31,6 +31,9 @@ def _same_value(a, b):
         return list(np.ravel(a)) == list(np.ravel(b)) if not isinstance(a, str) and not isinstance(b, str) else a == b
     if a is None or b is None:
         return (a is None or (isinstance(a, float) and math.isnan(a))) and (b is None or (isinstance(b, float) and math.isnan(b)))
+    # an index value that is a number in one system and text in the other names a different device (2 is not "2")
+    if isinstance(a, (str, np.str_)) != isinstance(b, (str, np.str_)):
+        return False
     if isinstance(a, (int, float, np.number)) and isinstance(b, (int, float, np.number)):
         a, b = float(a), float(b)
         return (math.isnan(a) and math.isnan(b)) or abs(a - b) <= 1e-12 * max(1.0, abs(a), abs(b))
@@ -159,5 +162,87 @@ def matpower(sc):
     return dict(sid=sc["sid"], ev=[rec])
 
 
+
+
+def _raw_cz_variant(src, dst, which, sbase_new):
+    """Copy a PSS/E v33 raw file, putting the ``which``-th two-winding transformer that is entered on the system base (CZ = 1)
+    on its winding base instead (CZ = 2, SBASE1-2 = sbase_new) with R1-2 / X1-2 scaled so that it is the same physical branch.
+    Returns (from bus, to bus) or None when the file has no such transformer."""
+    lines = open(src).read().splitlines()
+    start = next((i + 1 for i, ln in enumerate(lines) if "begin transformer data" in ln.lower()), None)
+    if start is None:
+        return None
+    i = start
+    recs = []
+    while i < len(lines):
+        ln = lines[i]
+        if ln.strip().startswith("0 /") or ln.strip().startswith("Q"):
+            break
+        f = [x.strip() for x in ln.split(",")]
+        try:
+            k = int(float(f[2]))
+        except (ValueError, IndexError):
+            break
+        nl = 4 if k == 0 else 5
+        if k == 0 and int(float(f[5])) == 1:
+            recs.append(i)
+        i += nl
+    if not recs:
+        return None
+    at = recs[which % len(recs)]
+    f1 = lines[at].split(",")
+    f1[5] = "2"
+    lines[at] = ",".join(f1)
+    f2 = [float(x) for x in lines[at + 1].split("/")[0].split(",")[:3]]
+    scale = sbase_new / f2[2]
+    lines[at + 1] = " %.10E, %.10E, %10.3f" % (f2[0] * scale, f2[1] * scale, sbase_new)
+    open(dst, "w").write("\n".join(lines) + "\n")
+    return int(float(f1[0])), int(float(f1[1]))
+
+
+def raw_variants(sc):
+    """One network written in two ways in the PSS/E format (a transformer's impedance on the system base or on its winding
+    base): the two files are one system - same per-unit branch data, same power flow."""
+    andes = andes_mod()
+    from .common import case_path
+    d = scratch_dir("raw")
+    ev = []
+    try:
+        src = case_path(sc["case"])
+        ref = andes.load(src, **sys_kwargs())
+        pf0, sol0, _ = _solve(ref)
+        for which, sb in sc["variants"]:
+            rec = dict(e="rt", fmt="raw", raised=False, same_devices=True, same_values=True, same_pflow=True, same_init=True)
+            try:
+                dst = os.path.join(d, "v%d_%d.raw" % (which, int(sb)))
+                pair = _raw_cz_variant(src, dst, which, float(sb))
+                if pair is None:
+                    continue
+                ss2 = andes.load(dst, **sys_kwargs())
+                rec["same_devices"] = bool(ss2 is not None and ss2.Line.n == ref.Line.n and ss2.Bus.n == ref.Bus.n)
+                bad = []
+                if rec["same_devices"]:
+                    for name in ("r", "x", "b", "tap", "phi"):
+                        v0 = np.asarray(ref.Line.__dict__[name].v, dtype=float)
+                        v1 = np.asarray(ss2.Line.__dict__[name].v, dtype=float)
+                        if not np.allclose(v0, v1, rtol=1e-7, atol=1e-12):
+                            k = int(np.argmax(np.abs(v0 - v1)))
+                            bad.append("Line.%s of branch %s-%s: %r (system-base entry) vs %r (winding-base entry of transformer %s-%s)" % (
+                                name, ref.Line.bus1.v[k], ref.Line.bus2.v[k], float(v0[k]), float(v1[k]), pair[0], pair[1]))
+                    pf2, sol2, _ = _solve(ss2)
+                    rec["same_pflow"] = bool(pf0 == pf2 and (not pf0 or (len(sol0) == len(sol2) and np.max(np.abs(sol0 - sol2)) <= 1e-6)))
+                rec["same_values"] = bool(not bad)
+                rec["bad"] = bad[:4]
+            except Exception as ex:
+                rec["raised"] = True
+                rec["raised_text"] = "%s: %s" % (type(ex).__name__, str(ex)[:160])
+            ev.append(rec)
+    finally:
+        shutil.rmtree(d, ignore_errors=True)
+    return dict(sid=sc["sid"], ev=ev)
+
+
 def task(sc):
+    if sc["kind"] == "raw":
+        return raw_variants(sc)
     return matpower(sc) if sc["kind"] == "matpower" else roundtrip(sc)
